@@ -744,7 +744,6 @@ fn check_case(sc: &Scope, case: &Case, w: &mut Worker, rep: &mut Report) {
         if w.shrunk >= MAX_SHRINKS_PER_THREAD {
             // still counted; the kept (shrunk) cases already describe these causes
             rep.violation_count += 1;
-            rep.count("violating-cases-not-shrunk", 1);
             continue;
         }
         w.shrunk += 1;
@@ -876,7 +875,9 @@ fn run_worker(tier: Tier, journal: Option<String>, dead_file: Option<String>) ->
          (i) universe: ALL definition lists of length <= 2 (quick; plus all lists of length 3 over a reduced right-hand-side set) / <= 3 (thorough) over names {a,b,c} x the listed right-hand sides, crossed with the listed actors; \
          (ii) U_P = mclib::progs::default_programs (well-formed by construction); \
          (iii) every single-fault mutant of every U_P program (fault alphabet: undefined name, duplicate definition, alias cycle of length 1-4 through a definition / fresh / referenced from each leaf, duplicate field id, name next to its own number, hash-colliding name, non-function method directly and through alias chains of 0-3 hops, duplicate method, oneway with result, second annotation, duplicate argument/result/init-argument name, non-service actor through alias chains of 0-3 hops, undefined actor) at every position; \
-         (iv) the U_P programs and mutants as init-args programs (check_init_args) and as files (check_file: single file, types imported, service imported, with own / same / hash-colliding method in the importing file). \
+         (iv) the U_P programs and mutants (quick: every 8th) as init-args programs (check_init_args) and as files (check_file: single file, types imported, service imported, with own / same / hash-colliding method in the importing file); \
+         (v) all records of <= 3 fields written with explicit ids {0,1,2,98,2^32-1}, the name \"a\" or the tuple shorthand, and all variants of <= 3 bare tags, as a definition and inside an actor method (model: ids assigned as the spec says, unique and < 2^32); \
+         (vi) alias chains / cycles of length 8, 64, 512 (thorough: 2048) as method type, actor, constructor result, data type, into a 1-cycle, into an undefined name. \
          Oracle: accepted <=> R8 well-formed (c14/src/wf.rs); for every accepted program trace_type / rec_find_type / as_func / as_service / self-subtype / chase_type / chase_actor / chase_def_use / encode+decode of two small values per definition / the four binding generators must return without panicking (and without an error where a closed environment guarantees success). \
          states = distinct programs, transitions = front-end calls, traces = verdict comparisons. Non-trivial = accepted programs + programs rejected by R8 for a single fault (mutants; universe programs with exactly one reason kind).",
         &[
